@@ -453,12 +453,21 @@ _SCRATCH = None
 
 
 def scratch_dir():
+    """created by the parent process (run / replay) before any worker is forked; workers inherit the path
+    and only create and unlink their own file in it; the parent removes the directory"""
     global _SCRATCH
     if _SCRATCH is None or not os.path.isdir(_SCRATCH):
         _SCRATCH = "/dev/shm/vmc-%d-c41" % os.getpid()
         os.makedirs(_SCRATCH, exist_ok=True)
         atexit.register(shutil.rmtree, _SCRATCH, True)
     return _SCRATCH
+
+
+def drop_scratch():
+    global _SCRATCH
+    if _SCRATCH is not None:
+        shutil.rmtree(_SCRATCH, True)
+        _SCRATCH = None
 
 
 def one_file(seq, t: Tally):
@@ -488,7 +497,8 @@ def one_file(seq, t: Tally):
         t.case(None, nontrivial=False)
         return
     got, exc = call(read_flows_from_paths, [path])
-    os.unlink(path)
+    if os.path.exists(path):
+        os.unlink(path)
     ok = exc is None and len(got) == len(specs)
     if not t.judge("import_succeeds", ok, fe, case, "%d flows" % len(specs), exc or len(got)):
         t.case(None, nontrivial=True, key=case)
@@ -568,12 +578,20 @@ def run(ctx):
     ctx.log("%d flow cases (<=%d deviations + body products), %d files" % (len(specs), k, len(files)))
     par.pmap_tally(chunk_cases, specs, ctx.tally)
     ctx.log("flow cases done: %d evaluations, %d outcomes" % (ctx.tally.evaluations, len(ctx.tally.outcomes)))
-    par.pmap_tally(chunk_files, files, ctx.tally)
+    scratch_dir()
+    try:
+        par.pmap_tally(chunk_files, files, ctx.tally)
+    finally:
+        drop_scratch()
 
 
 def replay(case, t: Tally, verbose=False):
     if "file" in case:
-        one_file(case["file"], t)
+        scratch_dir()
+        try:
+            one_file(case["file"], t)
+        finally:
+            drop_scratch()
         return
     spec = case["flow"]
     if verbose:
